@@ -473,14 +473,26 @@ func (x *Exec) subObj(st *State, obj *Term, owner string, f *types.Var) *Term {
 	key := "sub_" + owner + "." + f.Name()
 	if v, ok := obj.Int64(); ok && v < 0 {
 		k := subKey{v, key}
-		if id, ok := st.subs[k]; ok {
+		// the id is recorded in the real state: a shadow state (entry/snapshot view used while a
+		// clause is evaluated) must not keep it to itself, or the same field would get two ids
+		root := st
+		for root.sink != nil {
+			root = root.sink
+		}
+		if id, ok := root.subs[k]; ok {
+			if root != st {
+				st.subs, st.kinds = root.subs, root.kinds
+			}
 			return x.b.Int(id)
 		}
-		id := st.newObjID()
-		st.subs = cloneSubs(st.subs)
-		st.subs[k] = id
-		st.kinds = cloneKinds(st.kinds)
-		st.kinds[id] = key
+		id := root.newObjID()
+		root.subs = cloneSubs(root.subs)
+		root.subs[k] = id
+		root.kinds = cloneKinds(root.kinds)
+		root.kinds[id] = key
+		if root != st {
+			st.subs, st.kinds = root.subs, root.kinds
+		}
 		return x.b.Int(id)
 	}
 	x.subFuncs[key] = true
